@@ -1107,8 +1107,10 @@ def _native_setget_sweep(tier="quick", seed=0):
         _walk(prs, visit, skip={("Slide", "notes_slide"), ("Presentation", "notes_master"), ("_Background", "fill"), ("_BaseShapes", "turbo_add_enabled")}, budget=2500)
         return out
 
-    def chart_gallery():
-        """one chart of each family, stacked and clustered, with legend, title, data labels and markers switched on"""
+    def chart_gallery(other_producer=False):
+        """one chart of each family, stacked and clustered, with legend, title, data labels and markers switched on; with
+        `other_producer` the parts are then rewritten the way another producer leaves them: the legend placed by hand (manual layout in
+        "edge" mode), attributes that carry the schema default left out"""
         from pptx.chart.data import BubbleChartData, CategoryChartData, XyChartData
         from pptx.enum.chart import XL_CHART_TYPE as T
         from pptx.util import Inches
@@ -1137,9 +1139,31 @@ def _native_setget_sweep(tier="quick", seed=0):
                 ch.plots[0].has_data_labels = True
             except Exception:
                 pass
+            if other_producer:
+                from lxml import etree as _et
+
+                from .c20 import _elide_default_attributes
+
+                C = "http://schemas.openxmlformats.org/drawingml/2006/chart"
+                cs = ch.part._element
+                for lg_ in cs.iter("{%s}legend" % C):
+                    lay = _et.fromstring('<c:layout xmlns:c="%s"><c:manualLayout><c:xMode val="edge"/><c:yMode val="edge"/><c:x val="0.7"/><c:y val="0.1"/>'
+                                         '<c:w val="0.2"/><c:h val="0.3"/></c:manualLayout></c:layout>' % C)
+                    for old_ in lg_.findall("{%s}layout" % C):
+                        lg_.remove(old_)
+                    nxt = next((c_ for c_ in lg_ if _et.QName(c_).localname in ("overlay", "spPr", "txPr", "extLst")), None)
+                    if nxt is not None:
+                        nxt.addprevious(lay)
+                    else:
+                        lg_.append(lay)
+                _elide_default_attributes(cs)
+        if other_producer:  # the proxies must see the rewritten parts as a reader would: through a save and re-open
+            b_ = io.BytesIO()
+            prs.save(b_)
+            prs = Presentation(io.BytesIO(b_.getvalue()))
         return prs
 
-    decks = [("rich_deck", rich_deck(seed)), ("chart_gallery", chart_gallery())]
+    decks = [("rich_deck", rich_deck(seed)), ("chart_gallery", chart_gallery()), ("chart_gallery_as_another_producer_writes_it", chart_gallery(True))]
     if tier != "quick":
         repo = os.environ.get("PPTX_REPO", "/repo")
         for f in sorted(glob.glob(os.path.join(repo, "features", "steps", "test_files", "*.pptx"))):
@@ -1147,7 +1171,7 @@ def _native_setget_sweep(tier="quick", seed=0):
         decks.append(("rich_deck2", rich_deck(seed + 17)))
     rnd = random.Random(seed)
     for label, prs in decks:
-        bad = sweep(prs, label, (14 if label == "chart_gallery" else 3) if tier == "quick" else 14, rnd)
+        bad = sweep(prs, label, (14 if label.startswith("chart_gallery") else 3) if tier == "quick" else 14, rnd)
         rec("C09.native.assign_read_reset[%s]" % label, bad)
         if bad:
             continue
@@ -1175,6 +1199,54 @@ def _native_setget_sweep(tier="quick", seed=0):
         rec("C09.native.setget[%s]" % sig, wit)
     for lbl, bad in connector_refusal_probes():
         rec("C09.native." + lbl, bad)
+    # assigning on one object leaves the same property of its siblings alone, also when they hold equal values (hyperlinks with one
+    # address share a relationship): change / clear one of several runs and shapes linking to the same address
+    bad = None
+    for action, with_shape in [(a_, w_) for a_ in ("change", "clear", "same-again") for w_ in (False, True)]:
+        prs_ = Presentation()
+        sl_ = prs_.slides.add_slide(prs_.slide_layouts[6])
+        tb_ = sl_.shapes.add_textbox(0, 0, 100, 100)
+        runs_ = []
+        for i_ in range(3):
+            r_ = tb_.text_frame.paragraphs[0].add_run()
+            r_.text = "r%d" % i_
+            r_.hyperlink.address = "http://example.com/same" if i_ < 2 else "http://example.com/other"
+            runs_.append(r_)
+        shp_ = sl_.shapes.add_shape(1, 0, 0, 10, 10)
+        shp_.click_action.hyperlink.address = "http://example.com/same" if with_shape else "http://example.com/shape"
+        if action == "change":
+            runs_[0].hyperlink.address = "http://example.com/changed"
+        elif action == "clear":
+            runs_[0].hyperlink.address = None
+        else:
+            runs_[0].hyperlink.address = "http://example.com/same"
+            runs_[2].hyperlink.address = "http://example.com/other"  # the address it already has, not shared with anything
+        want = [{"change": "http://example.com/changed", "clear": None, "same-again": "http://example.com/same"}[action], "http://example.com/same", "http://example.com/other", "http://example.com/same" if with_shape else "http://example.com/shape"]
+
+        def read_(sl):
+            out = []
+            tb = [s_ for s_ in sl.shapes if s_.has_text_frame and s_.text_frame.paragraphs[0].runs][0]
+            for r in tb.text_frame.paragraphs[0].runs:
+                try:
+                    out.append(r.hyperlink.address)
+                except Exception as e:
+                    out.append(repr(e))
+            sh = [s_ for s_ in sl.shapes if not (s_.has_text_frame and s_.text_frame.paragraphs[0].runs)][0]
+            try:
+                out.append(sh.click_action.hyperlink.address)
+            except Exception as e:
+                out.append(repr(e))
+            return out
+
+        got = read_(sl_)
+        if got != want:
+            bad = bad or "three runs and a shape link to [same, same, other, %s]; %s on the first run: addresses read %r, expected %r" % ("same" if with_shape else "shape", action, got, want)
+        b_ = io.BytesIO()
+        prs_.save(b_)
+        got2 = read_(Presentation(io.BytesIO(b_.getvalue())).slides[0])
+        if got2 != want:
+            bad = bad or "three runs and a shape link to [same, same, other, %s]; %s on the first run: after save / re-open addresses read %r, expected %r" % ("same" if with_shape else "shape", action, got2, want)
+    rec("C09.native.assigning_a_hyperlink_leaves_the_other_links_alone", bad)
     # gradient stops are addressed by index: moving one stop past another changes neither which stop an index designates nor its colour
     from pptx.dml.color import RGBColor as _RGB
 
